@@ -154,6 +154,17 @@ Val(s) == [ns |-> FALSE, s |-> s]
 (* pattern = (?i)(?:^|,)\s*KEY(?:(?:\s+)?=(?:\s+)?(Q|U))?(?:,|$|\s+)        *)
 (*   Q = (?:"(?:\\"|[^"])+)?"      U = (?:[^,\s]+)?                          *)
 
+BS == "\\"
+\* Scanning (?:\\"|[^"])+ from index i: an escaped quote is preferred over a lone backslash, as many units as
+\* possible.  Result: the index of the quote that ends the greedy scan (0 if the text ends first), preceded in
+\* preference by nothing and followed by the escaped quotes met, latest first (giving one up makes it the closing quote).
+RECURSIVE Scan(_, _, _)
+Scan(s, i, esc) == IF i > Len(s) THEN <<0>> \o esc
+                   ELSE IF s[i] = Q THEN <<i>> \o esc
+                   ELSE IF s[i] = BS /\ At(s, i + 1) = Q THEN Scan(s, i + 2, <<i + 1>> \o esc)
+                   ELSE Scan(s, i + 1, esc)
+CloseCands(s, i) == SelectSeq(Scan(s, i, <<>>), LAMBDA x : x # 0)
+
 \* (?:,|$|\s+) at index i: index after the terminator, 0 = no match
 TermEnd(s, i) == IF At(s, i) = Sep THEN i + 1
                  ELSE IF i = Len(s) + 1 THEN i
@@ -168,12 +179,12 @@ AfterKey(s, p) ==
   IF At(s, p1) # "="
   THEN [ok |-> TermEnd(s, p) # 0, cap |-> <<>>, end |-> TermEnd(s, p)]
   ELSE LET p3   == p1 + 1 + RunIn(s, p1 + 1, WS)
-           n    == RunOut(s, p3 + 1, {Q})
-           qEnd == p3 + n + 2
-           q1   == At(s, p3) = Q /\ n >= 1 /\ At(s, p3 + n + 1) = Q /\ TermEnd(s, qEnd) # 0
+           \* closing-quote candidates of (?:"(?:\\"|[^"])+)?" in the order a backtracking matcher tries them
+           cq   == IF At(s, p3) = Q THEN CloseCands(s, p3 + 1) ELSE <<>>
+           okq  == {i \in 1..Len(cq) : cq[i] > p3 + 1 /\ TermEnd(s, cq[i] + 1) # 0}
            q2   == At(s, p3) = Q /\ TermEnd(s, p3 + 1) # 0
            m    == RunOut(s, p3, {Sep} \cup WS)
-       IN IF q1 THEN [ok |-> TRUE, cap |-> SubSeq(s, p3, qEnd - 1), end |-> TermEnd(s, qEnd)]
+       IN IF okq # {} THEN LET c == cq[Min(okq)] IN [ok |-> TRUE, cap |-> SubSeq(s, p3, c), end |-> TermEnd(s, c + 1)]
           ELSE IF q2 THEN [ok |-> TRUE, cap |-> <<Q>>, end |-> TermEnd(s, p3 + 1)]
           ELSE [ok |-> TRUE, cap |-> SubSeq(s, p3, p3 + m - 1), end |-> TermEnd(s, p3 + m)]
 
@@ -189,11 +200,17 @@ Find(s, key) ==
   LET good == {c \in {0} \cup {i \in 1..Len(s) : s[i] = Sep} : TryAt(s, key, c).ok}
   IN IF good = {} THEN [ok |-> FALSE, start |-> 0, end |-> 0, cap |-> <<>>] ELSE TryAt(s, key, Min(good))
 
+RECURSIVE Unesc(_), Esc(_)
+Unesc(q) == IF q = <<>> THEN <<>>                                   \* strings.ReplaceAll(v, `\"`, `"`)
+            ELSE IF q[1] = BS /\ At(q, 2) = Q THEN <<Q>> \o Unesc(SubSeq(q, 3, Len(q)))
+            ELSE <<q[1]>> \o Unesc(Tail(q))
+Esc(q) == IF q = <<>> THEN <<>> ELSE (IF q[1] = Q THEN <<BS, Q>> ELSE <<q[1]>>) \o Esc(Tail(q))
+
 GetField(s, key) ==
   LET f == Find(s, key) IN
   IF ~f.ok THEN NotSet
   ELSE IF Len(f.cap) >= 2 /\ f.cap[1] = Q /\ f.cap[Len(f.cap)] = Q
-       THEN Val(SubSeq(f.cap, 2, Len(f.cap) - 1))
+       THEN Val(Unesc(SubSeq(f.cap, 2, Len(f.cap) - 1)))
        ELSE Val(f.cap)
 
 UnsetFieldStr(s, key) ==
@@ -204,10 +221,10 @@ UnsetFieldStr(s, key) ==
   ELSE SubSeq(s, 1, f.start - 1)                                                       \* at the end
 
 \* characters that make setField quote the value (those of them that are in the alphabet)
-QuoteChars == WS \cup {"=", Sep, "(", ")"}
+QuoteChars == WS \cup {"=", Sep, "(", ")", BS}
 SetFieldStr(subj, key, ns, val) ==
   LET s1 == UnsetFieldStr(subj, key)
-      sv == IF Has(val, QuoteChars) THEN CutNL(<<Q>> \o val \o <<Q>>) ELSE val
+      sv == IF Has(val, QuoteChars) THEN CutNL(<<Q>> \o Esc(val) \o <<Q>>) ELSE val
       kv == IF ns \/ sv = <<>> THEN key ELSE key \o <<"=">> \o sv
   IN IF ns /\ s1 = <<>> /\ Len(key) = 1 THEN s1           \* the Fastly quirk field.go reproduces
      ELSE IF s1 = <<>> THEN kv ELSE s1 \o <<Sep>> \o kv
@@ -239,17 +256,16 @@ MAdd(L, A, n, val) == St([L EXCEPT ![Canon(n)] = Append(@, val)], IF "add-unassi
 \* value.String.String() of a not-set value
 NullStr == <<"(", "n", "u", "l", "l", ")">>
 
-\* the interpreter evaluates the right-hand side of a sub-field assignment in local-variable
-\* mode: a not-set expression becomes the empty string (interpreter/statement.go ProcessSetStatement)
+\* a not-set right-hand side (API value or VCL expression alike) reaches the header code as a not-set STRING
 Apply(L, A, o) ==
   LET ns == o.v.kind # "str" IN
   CASE o.op = "set"    -> MSet(L, A, o.n, ns, o.v.s)
-    [] o.op = "setf"   -> MSetF(L, A, o.n, o.k, o.v.kind = "ns", o.v.s)
+    [] o.op = "setf"   -> MSetF(L, A, o.n, o.k, ns, o.v.s)
     [] o.op = "unset"  -> MUnset(L, A, o.n)
     [] o.op = "unsetf" -> MUnsetF(L, A, o.n, o.k)
     [] o.op = "add"    -> MAdd(L, A, o.n, IF ns THEN NullStr ELSE o.v.s)
     [] o.op = "app"    -> \* assignHeaderValue: read, += String() of the right-hand side, mark set, write back
-         LET rhs == IF ~ns THEN o.v.s ELSE IF o.v.kind = "null" /\ o.k # Whole THEN <<>> ELSE NullStr
+         LET rhs == IF ~ns THEN o.v.s ELSE NullStr
              cur == MGet(L, A, o.n, o.k).s \o rhs IN
          IF o.k = Whole THEN MSet(L, A, o.n, FALSE, cur) ELSE MSetF(L, A, o.n, o.k, FALSE, cur)
 
@@ -258,7 +274,7 @@ Apply(L, A, o) ==
 VARIABLES lines, asg,      \* the stores: object |-> ...
           pl, pa,          \* the stores before the last operation
           last,            \* the last operation
-          hist,            \* witness: <<[op, m, r]>> (hidden from the VIEW in mode "cover")
+          hist,            \* witness: the operations so far (hidden from the VIEW in mode "cover")
           done             \* mode "walk": the walk is complete (the one state a walk is emitted from)
 vars == <<lines, asg, pl, pa, last, hist, done>>
 
@@ -320,15 +336,18 @@ RRow(o, LL, AA) == [oi \in 1..Len(Objs) |-> [i \in 1..Len(Spellings) |-> [j \in 
                    EncTag(Req(o, Objs[oi], Spellings[i], KeyAt(j), Read(LL, AA, <<Objs[oi], Spellings[i], Whole>>)))]]]
 OpJson(o) == [op |-> o.op, o |-> o.o, n |-> o.n, k |-> KeyName(o.k), vk |-> o.v.kind, v |-> Join(o.v.s)]
 
+L0 == [ob \in ObjSet |-> [c \in Canons |-> <<>>]]
+A0 == [ob \in ObjSet |-> {}]
+
 None == [op |-> "none", n |-> "", k |-> Whole, v |-> NS, o |-> "_"]
-Init == /\ lines = [ob \in ObjSet |-> [c \in Canons |-> <<>>]] /\ asg = [ob \in ObjSet |-> {}]
+Init == /\ lines = L0 /\ asg = A0
         /\ pl = lines /\ pa = asg /\ last = None /\ hist = <<>> /\ done = FALSE
 
 Do(o) == LET r == Apply(lines[o.o], asg[o.o], o)
              L2 == [lines EXCEPT ![o.o] = r.L]
              A2 == [asg EXCEPT ![o.o] = r.A] IN
          /\ lines' = L2 /\ asg' = A2 /\ pl' = lines /\ pa' = asg /\ last' = o
-         /\ hist' = Append(hist, [op |-> OpJson(o), m |-> MRow(L2, A2), r |-> RRow(o, lines, asg)])
+         /\ hist' = Append(hist, o)
          /\ UNCHANGED done
 
 \* mode "walk": the single successor of a complete walk (in simulation mode TLC evaluates the invariants on
@@ -340,11 +359,20 @@ Spec == Init /\ [][Next]_vars
 
 View == <<pl, pa, last, Len(hist), done>>
 
+\* the emitted steps: the witness replayed from the empty stores, with both layers' read-back after each step
+RECURSIVE Steps(_, _, _)
+Steps(ops, LL, AA) ==
+  IF ops = <<>> THEN <<>>
+  ELSE LET o == Head(ops)
+           r == Apply(LL[o.o], AA[o.o], o)
+           L2 == [LL EXCEPT ![o.o] = r.L]
+           A2 == [AA EXCEPT ![o.o] = r.A]
+       IN <<[op |-> OpJson(o), m |-> MRow(L2, A2), r |-> RRow(o, LL, AA)]>> \o Steps(Tail(ops), L2, A2)
 EmitNow == CASE Mode = "cover" -> Len(hist) > 0
              [] Mode = "seq" -> Len(hist) = MaxOps
              [] OTHER -> done
 Emit == EmitNow =>
-          PrintT(<<"BEHAVIOUR", ToJson([steps |-> hist,
+          PrintT(<<"BEHAVIOUR", ToJson([steps |-> Steps(hist, L0, A0),
                                         objs |-> Objs,
                                         sp |-> Spellings,
                                         canon |-> [i \in 1..Len(Spellings) |-> Canon(Spellings[i])],
